@@ -418,7 +418,17 @@ def rule_scale(ctx):
             if isinstance(x, ast.Call):
                 d = dotted(x.func)
                 if d == "do" and x.args and isinstance(x.args[0], ast.Constant):
-                    ops.append(str(x.args[0].value))
+                    op = str(x.args[0].value)
+                    ordk = [k.value for k in x.keywords if k.arg == "ord"]
+                    if op.endswith("norm") and ordk and (
+                            (dotted(ordk[0]) or "").split(".")[-1] in ("inf", "Inf", "infty") or
+                            (isinstance(ordk[0], ast.Call) and dotted(ordk[0].func) == "float" and
+                             ordk[0].args and isinstance(ordk[0].args[0], ast.Constant) and
+                             str(ordk[0].args[0].value).lower() in ("inf", "+inf", "infinity"))):
+                        # the infinity norm of the flattened array *is* max(abs(.))
+                        ops += ["max", "abs"]
+                    else:
+                        ops.append(op)
                 elif d in ("float", "abs", "max"):
                     ops.append(d)
                 else:
